@@ -10,6 +10,10 @@ if tag.startswith("c"):
     EXTRA = """
 This is a third round: earlier rounds already produced operator flips, off-by-one changes, dropped cache invalidations, aliased lists and reordered statements in the central functions. Prefer changes of yet another nature: a live object that is re-queried after one of its options was reassigned (setter forgets part of the update); an interaction of two features that are each fine alone (focus and resize, encoding switch and a cached layout, an in-place edit and a remembered position, a callback that re-enters the API); cleanup or error paths (what happens after an exception was raised and handled once, second start after stop); behaviour that only differs on the second or third repetition of the same step; rarely used public options, subclasses and helper functions among the anchors; boundary values of numeric parameters (0, 1, the exact maximum, negative). Avoid the single most central function of the property if a less obvious site can break it too.
 """
+if tag.startswith("d"):
+    EXTRA = """
+This is a fourth round. Earlier rounds already produced: operator flips and off-by-one changes, dropped cache invalidations, lists aliased instead of copied, reordered statements, setters that forget part of their update, results cached without the encoding in the key, special cases dropped from rarely used options, falsy-value tests (`if x:` instead of `if x is not None:`), and refactorings of the single most central function. Find changes of yet another nature, for example: two methods that must agree (rows() and render(), pack() and render(), a reported position and a drawn one, a getter and the state a key handler uses) where only one of them is changed; state that is restored incorrectly after an exception was raised and caught once; behaviour at the exact maximum or minimum of a numeric range; an early return that skips bookkeeping needed by the *next* call; iteration order or tie-breaking between equal candidates; re-entrancy (a callback calling back into the same object); a default value changed in one of two places; a loop bound that is right for every length but 0 or 1; handling of the last element versus all others. Prefer sites in the less central files among the anchors.
+"""
 prop = next(json.loads(l) for l in open('/verif/properties.jsonl') if json.loads(l)['id'] == pid)
 wt = f"/tmp/seedwork/wt_{pid}_{tag}"
 if not os.path.exists(wt):
